@@ -177,6 +177,9 @@ def discharge(pc, goal, timeout_ms, stats, use_cvc5=True, both=False, inc=None):
     r = s.check()
     stats.solver_s += time.time() - t0
     stats.queries = getattr(stats, "queries", 0) + 1
+    if os.environ.get("PYVC_DUMP") and time.time() - t0 > 5:
+        with open(os.path.join(os.environ["PYVC_DUMP"], "q%d_%s.smt2" % (stats.queries, r)), "w") as _f:
+            _f.write(s.to_smt2())
     if r == z3.unsat:
         if both:
             r2 = cvc5_check(s.to_smt2(), timeout_ms)
@@ -282,7 +285,9 @@ def run_case(cid, case_id, tier="quick", known_regions=None, seed=0):
                     goal = Or(*(regions[name] + [goal]))
                     if not isinstance(goal, (bool, SBool)):
                         goal = truth_val(goal)
+                _t0 = time.time()
                 st, m, be = discharge(ctx.pc, goal, timeout, stats, both=both, inc=ctx.solver)
+                ent["max_s"] = round(max(ent.get("max_s", 0.0), time.time() - _t0), 2)
                 res["by_backend"][be] = res["by_backend"].get(be, 0) + 1
                 if st == "proved":
                     continue
@@ -319,7 +324,9 @@ def side_obligations(res, ctx, timeout, stats, both):
     for name, goal, pc in ctx.side_obligations:
         ent = res["clauses"].setdefault(name, {"status": "proved", "paths": 0, "side": True})
         ent["paths"] += 1
+        _t0 = time.time()
         st, m, be = discharge(pc, goal, timeout, stats, both=both)
+        ent["max_s"] = round(max(ent.get("max_s", 0.0), time.time() - _t0), 2)
         res["by_backend"][be] = res["by_backend"].get(be, 0) + 1
         if st == "proved":
             continue
